@@ -57,7 +57,15 @@ func (k Keeper) Logger(ctx sdk.Context) log.Logger {
 	return ctx.Logger().With("module", fmt.Sprintf("x/%s", types.ModuleName))
 }
 
-func (k Keeper) GetCurrentInflation(ctx sdk.Context) (sdk.Dec, error) { // TODO add unit tests
+func (k Keeper) GetCurrentInflation(ctx sdk.Context) (inflation sdk.Dec, err error) { // TODO add unit tests
+	// decimal arithmetic panics on overflow (amounts near the upper limit of Int):
+	// report it as an error to the query and to BeginBlocker instead of crashing
+	defer func() {
+		if r := recover(); r != nil {
+			k.Logger(ctx).Error("inflation calculation error", "error", r)
+			inflation, err = sdk.ZeroDec(), sdkerrors.Wrapf(sdkerrors.ErrLogic, "inflation calculation error: %v", r)
+		}
+	}()
 	minterState := k.GetMinterState(ctx)
 	params := k.GetParams(ctx)
 	currentMinter, previousMinter := getCurrentAndPreviousMinter(params.Minters, &minterState)
